@@ -166,6 +166,11 @@ func manageCanaryStatus(annotations map[string]string, params *Parameters, now t
 // manageCanaryPodFailures checks if canary should be failed or paused due to restarts or other failures.
 // Note that pausing the canary will have no effect if it has been validated or failed.
 func manageCanaryPodFailures(pods []*v1.Pod, params *Parameters, result *Result, now time.Time) {
+	if params.Strategy.Canary == nil {
+		// the canary strategy was removed from the ExtendedDaemonSet while this replica set is still
+		// recorded as the canary: nothing to evaluate, the ExtendedDaemonSet reconcile ends the canary
+		return
+	}
 	var (
 		canary               = params.Strategy.Canary
 		autoPauseEnabled     = *canary.AutoPause.Enabled
